@@ -599,7 +599,9 @@ pub fn run(ctx: &Ctx, id: &str) -> i32 {
                         0 => None,
                         1 => Some(None),
                         2 => Some(Some(0xffff)),
-                        _ => Some(Some(1 + (v / 4) % 9999)),
+                        // half of the scenarios draw the dangling receipt from {77, 78}: consecutive clean-ups then report
+                        // the same number again (a terminal that restarts its numbering)
+                        _ => Some(Some(if variant % 2 == 0 { 77 + (v / 4) % 2 } else { 1 + (v / 4) % 9999 })),
                     },
                     reversal_abort: if (v / 64) % 5 == 0 { Some(0xb4) } else { None },
                     eod_abort: match (v / 512) % 3 {
